@@ -644,7 +644,13 @@ func BoundPod(t *rapid.T, idx int, node string, k Knobs) *corev1.Pod {
 			LabelSelector: &metav1.LabelSelector{MatchLabels: map[string]string{"app": pick(t, apps, l+"_antiApp")}}, TopologyKey: pick(t, []string{corev1.LabelHostname, corev1.LabelTopologyZone}, l+"_antiTopo")}}}}
 	}
 	p.Spec.Tolerations = []corev1.Toleration{{Operator: corev1.TolerationOpExists}}
-	return sim.Bound(p, node)
+	p = sim.Bound(p, node)
+	// a finished pod (a completed Job, a crashed pod that is not restarted) stays bound to its node until it is
+	// garbage collected: it holds no resources, ports or topology any more
+	if pct(t, 10, l+"_completed") {
+		p.Status.Phase = pick(t, []corev1.PodPhase{corev1.PodSucceeded, corev1.PodFailed}, l+"_completedPhase")
+	}
+	return p
 }
 
 func ptr[T any](v T) *T { return &v }
